@@ -53,7 +53,7 @@ INVARIANT InvOnlyNeeded InvServeEnabled InvRejectOnlyIfAllowed InvReturnExact In
 TRACE_CONSTANTS = "N = 2 Rich = FALSE Shard = 0 NShards = 2"     # unused by the trace specification
 NPROC = min(8, os.cpu_count() or 4)
 STRIP = ("route", "S", "must", "cut", "kinds", "pdesc", "dontcare")
-_IDENT = re.compile(r"[A-Za-z_][A-Za-z0-9_]*")
+_IDENT = re.compile(r"[A-Za-z_][A-Za-z0-9_]*(?:\.[A-Za-z_][A-Za-z0-9_]*)*")   # identifiers incl. scoped (dotted) ones
 
 
 # ---- events -------------------------------------------------------------------------------------------------------
@@ -81,7 +81,9 @@ def do_route(pl, pdesc: dict, tdesc: dict, inputs_py: dict, S: list[str], needed
     if route == "subpipeline":
         try:
             with contextlib.redirect_stdout(io.StringIO()):
-                target = pl.subpipeline(inputs=set(inputs_py), output_names=set(S))
+                flat = {k if not isinstance(v, dict) else f"{k}.{b}" for k, v in inputs_py.items()
+                        for b in (v if isinstance(v, dict) else [None])}
+                target = pl.subpipeline(inputs=flat, output_names=set(S))     # subpipeline takes NAMES (dotted)
         except Exception as ex:  # noqa: BLE001
             return [with_request(pmap.ev(e="reject", F=needed, cls=type(ex).__name__, msg=str(ex)[:300]), S,
                                  named_in(str(ex), tdesc))]
@@ -112,6 +114,15 @@ def run_case(job: dict) -> list[dict]:
             _PL_CACHE[key] = (pdesc, build.make_pipeline(pdesc))
     pdesc, pl = _PL_CACHE[key]
     inputs_py = pmap.inputs_to_py(inputs, job.get("kinds"))
+    if job.get("nested"):              # scoped names given as nested dicts: {"sc": {"x": ...}} instead of {"sc.x": ...}
+        nested: dict = {}
+        for k, v in inputs_py.items():
+            if "." in k:
+                sc, base = k.split(".", 1)
+                nested.setdefault(sc, {})[base] = v
+            else:
+                nested[k] = v
+        inputs_py = nested
     out = []
     for route in job.get("routes", ROUTES):
         build.LOG.clear()
@@ -277,7 +288,12 @@ def random_call_style_jobs(rng: random.Random, count: int) -> list[dict]:
             I.add(rng.choice(["x", "y", "z", "w"] + inter) if inter else "x")   # possibly a surplus name
         I -= set(S)
         inputs = [[n, pcall.kv(n)] for n in sorted(I)]
-        jobs.append({"desc": td, "S": sorted(S), "inputs": inputs, "needed": ["*"], "must": "?", "cut": "?"})
+        job = {"desc": td, "S": sorted(S), "inputs": inputs, "needed": ["*"], "must": "?", "cut": "?"}
+        if rng.random() < 0.25:        # the same request on the pipeline moved into a scope, inputs as nested dicts
+            sd, si = build.scoped(td, inputs, "sc")
+            job = {"desc": sd, "S": sorted("sc." + o for o in S), "inputs": si, "needed": ["*"], "must": "?", "cut": "?",
+                   "nested": rng.random() < 0.6}
+        jobs.append(job)
     return jobs
 
 
